@@ -8,6 +8,7 @@ import (
 	"os"
 	"sort"
 	"strconv"
+	"strings"
 
 	"github.com/skycoin/skycoin/src/cipher"
 	"github.com/skycoin/skycoin/src/coin"
@@ -381,6 +382,10 @@ func ledgerGen(r *Rng, tier string, emit func(string)) {
 		syncGen(r, tier, emit)
 		return
 	}
+	if profile == "c08" {
+		crashGen(r, tier, emit)
+		return
+	}
 	nHist := 40
 	if tier == "thorough" {
 		nHist = 600
@@ -703,4 +708,90 @@ func (g *genCtx) forged(P, F *node) {
 	}
 	sb := forgeBlock(P, txns, g.nextWhen(), uint64(r.Intn(3)), mut, secKey)
 	g.execBoth(&sb)
+}
+
+// crashGen (C08): a scripted life-cycle of node F with a raw snapshot at every commit boundary, then
+// restarts from (a sample of) the boundaries and from intra-commit crash states.
+func crashGen(r *Rng, tier string, emit func(string)) {
+	nHist := 6
+	if tier == "thorough" {
+		nHist = 60
+	}
+	if v := os.Getenv("VERIF_HISTORIES"); v != "" {
+		nHist, _ = strconv.Atoi(v)
+	}
+	for h := 0; h < nHist; h++ {
+		var fops []string // ops executed on F, in order
+		var fsnap []int   // number of snapshots after op i
+		g := &genCtx{r: r, avoidPending: true, conflictPct: 15}
+		g.emit = func(op string) {
+			emit(op)
+			f := strings.Fields(op)
+			if len(f) > 1 && f[1] == "F" {
+				fops = append(fops, op)
+				fsnap = append(fsnap, len(c8Snaps))
+			}
+		}
+		g.prec = 1000
+		g.burn = 2
+		emit("c8begin arbF=0 gc=100000000000000 gt=1000 burn=2 maxtxn=32768 maxblk=32768 prec=3 ubf=2 umax=32768 uprec=3")
+		if world == nil || !c8On {
+			continue
+		}
+		nOps := 6 + r.Intn(8)
+		for i := 0; i < nOps; i++ {
+			c := r.Intn(100)
+			switch {
+			case c < 40:
+				if t, ok := g.makeTxn(g.node("P"), ""); ok {
+					hx := txHex(&t)
+					g.emit("injf P " + hx)
+					g.emit("injf F " + hx)
+					g.pending = append(g.pending, t)
+				}
+			case c < 50:
+				if t, ok := g.makeTxn(g.node("P"), badKinds[r.Intn(len(badKinds))]); ok {
+					g.emit("injf F " + txHex(&t))
+				}
+			case c < 85:
+				g.emit("mkblock " + u(g.nextWhen()))
+				if sb := lastMade; sb != nil {
+					lastMade = nil
+					g.execBoth(sb)
+				}
+			case c < 92:
+				g.emit("refresh F")
+			default:
+				g.emit("rminv F")
+			}
+		}
+		g.emit("rminv F")
+		last := len(c8Snaps) - 1 // index of the last snapshot
+		// boundaries to restart from: always the three start-up ones + a sample (all in thorough)
+		var ks []int
+		for k := 0; k <= last; k++ {
+			if k <= 3 || tier == "thorough" || r.Chance(35) {
+				ks = append(ks, k)
+			}
+		}
+		for _, k := range ks {
+			emit("c8fork " + strconv.Itoa(k) + " full")
+			for i, op := range fops {
+				if fsnap[i]-1 <= k {
+					continue // all commits of this op are contained in snapshot k (= state after k commits)
+				}
+				f := strings.Fields(op)
+				f[1] = "R"
+				emit(strings.Join(f, " "))
+			}
+			emit("c8same")
+			if k < last {
+				for _, v := range []string{"pages:0", "pages:1", "pages:2", "pages:99", "tornmeta"} {
+					if tier == "thorough" || r.Chance(40) {
+						emit("c8fork " + strconv.Itoa(k) + " " + v)
+					}
+				}
+			}
+		}
+	}
 }
